@@ -144,21 +144,42 @@ def check(run, ctx):
             for n in flat:
                 if isinstance(n, ast.Assign) and any(isinstance(t, ast.Name) and t.id in msg_names for t in n.targets):
                     msg_names |= {x.id for x in ast.walk(n.value) if isinstance(x, ast.Name)}
-        if isinstance(line, ast.Name) and line.id == "line" and "value" in msg_names:
-            run.ok(M4, b, "line=line, message interpolates value")
+        bparams = [a.arg for a in f.node.args.args if a.arg not in ("self", "cls")]
+        p_line = line.id if isinstance(line, ast.Name) and line.id in bparams else None
+        p_val = next((q for q in bparams if q in msg_names and q != p_line and f.node.args.args[[a.arg for a in f.node.args.args].index(q)].annotation is not None
+                      and any(t_ in ast.unparse(f.node.args.args[[a.arg for a in f.node.args.args].index(q)].annotation) for t_ in ("int", "float"))), None)
+        if p_line is not None and p_val is not None:
+            run.ok(M4, b, f"line={p_line} (a parameter), message interpolates the numeric parameter {p_val}")
         else:
             run.finding(M4, b, "line-or-message", f"{b}: line is {norm(line) if line is not None else None}, message names {sorted(msg_names)}", f.loc)
         # call site passes (value, line_number) of the same literal tuple
         tc = repo.func_by_role(f"{RULE}.{TRY_CREATE[lang]}", f"the rule method that calls the builder {b}", lambda g, b=b: any(is_call_named(c, b) for c in ast.walk(g.node)))
         call = next(c for c in ast.walk(tc.node) if is_call_named(c, b))
         argn = [ast.unparse(a) for a in call.args] + [ast.unparse(k.value) for k in call.keywords]
-        # (value, line_number) of one literal record: unpacked names, or fields of one record object (rec.value, rec.line_number)
-        lastn = [a.rsplit(".", 1)[-1] for a in argn]
-        owners = {a.rsplit(".", 1)[0] for a in argn if a.rsplit(".", 1)[-1] in ("value", "line_number") and "." in a}
-        if "value" in lastn and "line_number" in lastn and len(owners) <= 1:
-            run.ok(M4, f"{TRY_CREATE[lang]} -> {b}", f"args {argn}")
+        # the arguments bound to the builder's value / line parameters come from ONE literal record: two elements of one
+        # tuple unpacking (`node, parent, value, line_number = literal_info`) or two fields of one record object, and the
+        # value argument is the one the flagging predicate was asked about (it is an argument of another call as well)
+        def _arg_for(pn):
+            if pn is None:
+                return None
+            i_ = bparams.index(pn)
+            kw_ = next((k.value for k in call.keywords if k.arg == pn), None)
+            return kw_ if kw_ is not None else call.args[i_] if i_ < len(call.args) else None
+        a_val, a_line = _arg_for(p_val), _arg_for(p_line)
+        unpacks = [set(e.id for e in t.elts if isinstance(e, ast.Name)) for a in ast.walk(tc.node) if isinstance(a, ast.Assign) for t in a.targets if isinstance(t, ast.Tuple)]
+        same_record = False
+        tparams = {a.arg for a in tc.node.args.args}
+        if isinstance(a_val, ast.Name) and isinstance(a_line, ast.Name) and a_val.id != a_line.id:
+            # ... or two parameters of the creating method (its caller unpacks the record in the loop header)
+            same_record = any(a_val.id in u and a_line.id in u for u in unpacks) or (a_val.id in tparams and a_line.id in tparams)
+        elif isinstance(a_val, ast.Attribute) and isinstance(a_line, ast.Attribute):
+            same_record = ast.unparse(a_val.value) == ast.unparse(a_line.value) and a_val.attr != a_line.attr
+        tested = a_val is not None and any((isinstance(c, ast.Call) and c is not call and any(ast.unparse(x) == ast.unparse(a_val) for x in c.args))
+                                           or (isinstance(c, ast.Compare) and ast.unparse(c.left) == ast.unparse(a_val)) for c in ast.walk(tc.node))
+        if same_record and tested:
+            run.ok(M4, f"{TRY_CREATE[lang]} -> {b}", f"args {argn}: value and line of one literal record, the value being the tested one")
         else:
-            run.finding(M4, TRY_CREATE[lang], f"args:{argn}", f"{b} is not called with the literal's value and line_number", tc.loc)
+            run.finding(M4, TRY_CREATE[lang], f"args:{len(argn)}:{'same-record' if same_record else 'mixed'}:{'tested' if tested else 'untested'}", f"{b} is not called with the literal's value and line_number", tc.loc)
 
     M6 = run.rule("M6", "each documented exempt position's predicate is reachable from that language's flagging branch", floor=11,
                   decides="the documented exemptions (constant definitions, range/enumerate, string repetition, test code, definition files, enum/const/static, #[test]) are wired in")
